@@ -321,6 +321,12 @@ func Verif_C13_endpoint_pool() {
 	vs.Assert("the retired endpoint's transport is closed exactly once", fd.conns[0].closes == 1)
 	ue4, isNew4, err := p.GetOrCreate(key, opt())
 	vs.Assert("a retired endpoint is never handed out again", err == nil && isNew4 && ue4 != got[0] && fd.dials == 2)
+	// the replaced endpoint is retired once more, late (its read loop or a second failing write notices)
+	got[0].retire()
+	vs.Join()
+	ue5, isNew5, err := p.GetOrCreate(key, opt())
+	vs.Assert("a late retire of the replaced endpoint leaves its successor in place", err == nil && !isNew5 && ue5 == ue4 && fd.dials == 2)
+	vs.Assert("and does not close the old transport again", fd.conns[0].closes == 1)
 	_ = ue4.Close()
 	_ = ue4.Close()
 	vs.Join()
